@@ -98,6 +98,15 @@ def run(rep):
     import lint
     lint.report(rep, ("constant_pair",), "dur_lit")
     forms.replay(rep, items, "c10.gen")
+    if forms.CAPTURE is None:
+        # durations written next to each other add - also when names hold them (Gen_Chain's dur_seq programs, shared with C03)
+        from props import c03
+        gc = tlc("Gen_Chain", "Gen_Chain", workers=4, timeout=600)
+        seqs = [c for c in gc.cases if c["lines"][-1]["form"] == "dur_seq"] if gc.ok else []
+        if len(seqs) < 30:
+            raise ToolError("Gen_Chain: no dur_seq programs (%s)" % (gc.violated or gc.error))
+        rep.add_tlc("Gen_Chain(dur_seq)", gc)
+        c03.duration_sequences(rep, sorted(seqs, key=c03.json_key))
     random_trace(rep, 3000 if quick else 200000)
 
 
